@@ -15,5 +15,6 @@ M=/tmp/mrepo/$$
 mkdir -p /tmp/mrepo
 git -C /repo worktree add -q --detach "$M" HEAD || exit 2
 ( cd "$M" && git apply "$DIFF" ) || { echo "APPLY-FAILED in copy"; git -C /repo worktree remove --force "$M"; exit 2; }
-cd /verif && PJPLAN_REPO=$M ./check "$P" "$@" 2>/dev/null | grep -E "VIOLATION|HELD|VIOLATED|KNOWN|MACHINERY" | cut -c1-200 | head -6
+mkdir -p /tmp/mrepo/ev /tmp/mrepo/rp
+cd /verif && VERIF_EVIDENCE_DIR=/tmp/mrepo/ev VERIF_REPLAY_DIR=/tmp/mrepo/rp PJPLAN_REPO=$M ./check "$P" "$@" 2>/dev/null | grep -E "VIOLATION|HELD|VIOLATED|KNOWN|MACHINERY" | cut -c1-200 | head -6
 git -C /repo worktree remove --force "$M"
